@@ -58,13 +58,13 @@ class Session:
         import darr
         self.darr = darr
         self.cfg = cfg
-        self.root = tempfile.mkdtemp(prefix='darrsh_')
-        self.path = os.path.join(self.root, 'a.darr')
         self.h = {}
         self.zero = bytes(cfg.rowbytes)
         for rid in (1, 2):
             if cfg.stored_bytes(rid) == self.zero:
                 raise ValueError('configuration has an all-zero row')
+        self.root = tempfile.mkdtemp(prefix='darrsh_')
+        self.path = os.path.join(self.root, 'a.darr')
 
     def close(self):
         self.h = {}
